@@ -264,7 +264,7 @@ def _run_opt(task):
     import sys
     from vlib.runner import REPO
     res = TaskResult()
-    for flag in ("-O", "-OO", "-Werror", "-bb", "-Xdev"):
+    for flag in task.get("flags") or ("-O", "-OO", "-Werror", "-bb", "-Xdev"):
         r = subprocess.run([sys.executable, "-B", flag, "-c", _OPT_SUB, REPO, str(task["seed"])], capture_output=True, text=True)
         if r.returncode != 0:
             from vlib import optrun
@@ -380,6 +380,13 @@ def replay(case):
     """Re-run generate() with the recorded outcomes forced. If a recorded outcome is no longer
     inside the range that generate() requests, the random source cannot return it any more and
     the pinned case passes."""
+    if case.get("pyflag") and "draws" not in case:
+        # a configuration case: the same 300 calls per kind in a fresh interpreter started with that flag
+        res = _run_opt({"seed": 1, "flags": [case["pyflag"]]})
+        if res.violations:
+            v = res.violations[0]
+            raise Violation(v["clause"], v["case"], v["expected"], v["actual"], v.get("detail"))
+        return
     c = loader.core()
     kind = case["kind"]
     gen, rebuild = _targets(c)[kind]
